@@ -4,6 +4,7 @@
   `d2r_exp`, `d2r_expinv` of `GDesc.model d` for EVERY descriptor `d` (all Bundle lists, all nestings).
 -/
 import SmoothProofs.C19Support
+import SmoothProofs.C06Prod
 import SmoothProofs.C19GalA
 import SmoothProofs.C19GalB
 import SmoothProofs.C19GalC
@@ -173,9 +174,7 @@ mutual
     | .bundle ps => d2r_exp_covL ps
   theorem d2r_exp_covL : (ps : List GDesc) → Cov2 selD2 (Bundle.bundle (GDesc.models ps)) (inD2L ps)
     | [] => fun _ r _ hr _ _ => absurd hr (Nat.not_lt_zero r)
-    | q :: ps => cov2_cons selD2 (fun A B a R C => by
-        show Bundle.prodD2rExp A B a R C = _
-        simp [Bundle.prodD2rExp, memoM_eq, Mat.of]) q ps (d2r_exp_cov q) (d2r_exp_covL ps)
+    | q :: ps => cov2_cons selD2 (fun A B a R C => C06.prod_d2r_exp_apply A B a R C) q ps (d2r_exp_cov q) (d2r_exp_covL ps)
 end
 
 mutual
@@ -191,9 +190,7 @@ mutual
     | .bundle ps => d2r_expinv_covL ps
   theorem d2r_expinv_covL : (ps : List GDesc) → Cov2 selD2inv (Bundle.bundle (GDesc.models ps)) (inD2L ps)
     | [] => fun _ r _ hr _ _ => absurd hr (Nat.not_lt_zero r)
-    | q :: ps => cov2_cons selD2inv (fun A B a R C => by
-        show Bundle.prodD2rExpinv A B a R C = _
-        simp [Bundle.prodD2rExpinv, memoM_eq, Mat.of]) q ps (d2r_expinv_cov q) (d2r_expinv_covL ps)
+    | q :: ps => cov2_cons selD2inv (fun A B a R C => C06.prod_d2r_expinv_apply A B a R C) q ps (d2r_expinv_cov q) (d2r_expinv_covL ps)
 end
 
 /-! ### `ad` -/
